@@ -807,7 +807,7 @@ type SCase struct {
 	ID       int
 	Before   []byte
 	Cfg      SignConfig
-	TimeMode int // 0 deterministic, 1 explicit time, 2 default (deterministic images only)
+	TimeMode int // 0 deterministic + time, 1 explicit time, 2 default (deterministic images only), 3 deterministic alone
 	FP       []byte
 	MDs      map[string]*PIMD
 	Seal     map[string][2][]byte // payload -> envelope, and the hash type as one byte
@@ -864,12 +864,15 @@ func (c *SCase) Coq(in *interner) string {
 	for _, ids := range c.Cfg.Objects {
 		objs = append(objs, zl(ids))
 	}
-	topt := "TDeterministic"
+	// the options as given; the model resolves them (Sign.sign_topt)
+	topt := fmt.Sprintf("(sign_topt true (Some %d))", fixedTime().Unix())
 	switch c.TimeMode {
 	case 1:
-		topt = fmt.Sprintf("(TExplicit %d)", fixedTime().Unix())
+		topt = fmt.Sprintf("(sign_topt false (Some %d))", fixedTime().Unix())
 	case 2:
-		topt = "TDefault"
+		topt = "(sign_topt false None)"
+	case 3:
+		topt = "(sign_topt true None)"
 	}
 	fp := "None"
 	if c.FP != nil {
